@@ -199,9 +199,9 @@ bool StepScript(InterpreterEnv& env)
             return set_error(serror, SCRIPT_ERR_EVAL_FALSE);
         // Additional validation for spend-to-script-hash transactions:
         if (env.script.IsPayToScriptHash()) {
-            // // scriptSig must be literals-only or validation fails
-            // if (!scriptSig.IsPushOnly())
-            //     return set_error(serror, SCRIPT_ERR_SIG_PUSHONLY);
+            // scriptSig must be literals-only or validation fails
+            if (!env.p2sh_sig_pushonly)
+                return set_error(serror, SCRIPT_ERR_SIG_PUSHONLY);
 
             // Restore stack.
             is_p2sh = false;
@@ -228,6 +228,7 @@ bool StepScript(InterpreterEnv& env)
     }
 
     if (env.successor_script.size()) {
+        const bool sig_pushonly = script.IsPushOnly();
         script = env.successor_script;
         env.successor_script.clear();
         pc = env.pbegincodehash = script.begin();
@@ -246,6 +247,7 @@ bool StepScript(InterpreterEnv& env)
             // we have "executed" the sigscript already (in the form of pushes onto the stack),
             // so we need to copy the stack here
             env.p2shstack = env.stack;
+            env.p2sh_sig_pushonly = sig_pushonly;
         }
         env.nOpCount = 0; // reset to avoid hitting limit prematurely!
         return true;
